@@ -9,6 +9,7 @@
 //!   {"a":"conn","p","j"} {"a":"close","p","j"}
 //!   {"a":"req","p","j","as":"self"|"other","addrs":[[letters]..]}   letters as in filter.rs; "ip4o" = this
 //!       connection's IP, "ip4p" = the IP of the peer's other connection
+//!   {"a":"outconn","p","j"}   an outbound connection to p that is not a dial-back comes and goes
 //!   {"a":"dialres","p","ok":bool,"i"}    the oldest running dial-back to p succeeds on its i-th address / fails
 use std::{collections::VecDeque, net::Ipv4Addr, time::Duration};
 
@@ -277,6 +278,38 @@ impl World {
                 }));
                 std::mem::forget(ctl);
             }
+            // an outbound connection to p that is NOT a dial-back (the application or another behaviour dialed
+            // p): same IP as p's connection j, a port no dial request names; established and closed again
+            "outconn" => {
+                let p = vcommon::n(op, "p") as usize;
+                let c = 2 * p + vcommon::n(op, "j") as usize;
+                if self.conns[c].is_none() {
+                    return;
+                }
+                self.next_cid += 1;
+                let id = ConnectionId::new_unchecked(5000 + self.next_cid);
+                let addr: Multiaddr = format!("/ip4/{}/tcp/{}", ip(c), 7000 + c).parse::<Multiaddr>().unwrap().with(Protocol::P2p(self.peers[p]));
+                self.evs.push(json!({"e": "outconn", "p": p, "c": c}));
+                let h = self.beh.handle_established_outbound_connection(id, self.peers[p], &addr, Endpoint::Dialer, PortUse::New).expect("never denied");
+                let ep = ConnectedPoint::Dialer { address: addr.clone(), role_override: Endpoint::Dialer, port_use: PortUse::New };
+                let others = self.n_conns(p);
+                self.beh.on_swarm_event(FromSwarm::ConnectionEstablished(ConnectionEstablished {
+                    peer_id: self.peers[p],
+                    connection_id: id,
+                    endpoint: &ep,
+                    failed_addresses: &[],
+                    other_established: others,
+                }));
+                self.settle();
+                drop(h);
+                self.beh.on_swarm_event(FromSwarm::ConnectionClosed(ConnectionClosed {
+                    peer_id: self.peers[p],
+                    connection_id: id,
+                    endpoint: &ep,
+                    cause: None,
+                    remaining_established: others,
+                }));
+            }
             "dialres" => {
                 let p = vcommon::n(op, "p") as usize;
                 let Some((dial_id, addrs)) = self.dials[p].pop_front() else { return };
@@ -356,7 +389,7 @@ fn run(out: &mut Out, sched: &Value, peers: &[PeerId], other: PeerId, local: Pee
     }
 }
 
-const LETTERS: [&str; 12] = ["ip4o", "ip4p", "ip4x", "ip6x", "dns4", "tcp", "udp", "quic", "p2pr", "p2px", "circ", "ip4y"];
+const LETTERS: [&str; 15] = ["ip4o", "ip4p", "ip4x", "ip6x", "dns4", "dns", "dns6", "dnsa", "tcp", "udp", "quic", "p2pr", "p2px", "circ", "ip4y"];
 
 fn random_sched(rng: &mut impl Rng, races: bool) -> Value {
     let tp = rng.gen_range(1..=3);
@@ -396,7 +429,9 @@ fn random_sched(rng: &mut impl Rng, races: bool) -> Value {
             json!({"a": "req", "p": p, "j": j, "as": if rng.gen_bool(0.9) { "self" } else { "other" }, "addrs": addrs})
         } else if x < 85 {
             json!({"a": "dialres", "p": p, "ok": rng.gen_bool(0.5), "i": rng.gen_range(0..4)})
-        } else if x < 92 {
+        } else if x < 89 {
+            json!({"a": "outconn", "p": p, "j": j})
+        } else if x < 93 {
             if races { json!({"a": "close", "p": p, "j": j}) } else { json!({"a": "dialres", "p": p, "ok": false, "i": 0}) }
         } else {
             json!({"a": "conn", "p": p, "j": j})
